@@ -46,6 +46,8 @@ func c17RevExt(l []pkix.Extension) []pkix.Extension {
 // a pool of DNS names that exercise the label rules (replayable variant)
 var c17Pool = []string{"a.example.com", "a.-example.com", "a.example-.com", "x_y.example.com", "x.a_b.com", "_x.example.com", "com", "a..b", "*.example.com", "*.com", "*.co.uk", "", "xn--a.example.com", "localhost"}
 
+var c17URIPool = []string{"http://example.com/a", "urn:isbn:0451450523", "mailto:a@example.com", "http://localhost/", "https://192.0.2.1/x", "http://[2001:db8::1]/", "ftp://a_b/", "http://example.com:8080/", "sip:alice@example.org", "/relative/only", "http://exa mple.com/"}
+
 // VerifC17Order: the verdict of the lint on a certificate and on the same
 // certificate with every general-name list (or the extension list) reversed
 // is the same.  With lists of at most two entries reversal is the only
@@ -59,7 +61,7 @@ func VerifC17Order() {
 		return
 	}
 	c1 := zz.Lazy[x509.Certificate]("c")
-	if zz.Param("c17.pool", 0) > 0 {
+	if zz.Param("c17.pool", 0) == 1 {
 		// replayable variant: two DNS names drawn from the pool, common name empty
 		i, j := zz.Int(), zz.Int()
 		zz.Assume(i >= 0 && i < len(c17Pool) && j >= 0 && j < len(c17Pool))
@@ -73,6 +75,25 @@ func VerifC17Order() {
 		c1.ExtKeyUsage, c1.UnknownExtKeyUsage = nil, nil
 		c1.EmailAddresses, c1.IPAddresses, c1.URIs = nil, nil, nil
 		c1.IANDNSNames, c1.IANEmailAddresses, c1.IANURIs, c1.IANIPAddresses = nil, nil, nil, nil
+	}
+	if pv := zz.Param("c17.pool", 0); pv == 2 || pv == 3 {
+		// replayable variant for the URI rules: two URIs drawn from a pool of opaque, host-less, IP-literal,
+		// non-FQDN and well-formed URIs; url.Parse is evaluated by the real library
+		i, j := zz.Int(), zz.Int()
+		zz.Assume(i >= 0 && i < len(c17URIPool) && j >= 0 && j < len(c17URIPool))
+		c1.IsCA, c1.SelfSigned = false, false
+		c1.BasicConstraintsValid = false
+		c1.NotBefore = time.Date(2021, 3, 1, 0, 0, 0, 0, time.UTC)
+		c1.NotAfter = time.Date(2021, 9, 1, 0, 0, 0, 0, time.UTC)
+		c1.ExtKeyUsage, c1.UnknownExtKeyUsage = nil, nil
+		c1.DNSNames, c1.EmailAddresses, c1.IPAddresses, c1.URIs = nil, nil, nil, nil
+		c1.IANDNSNames, c1.IANEmailAddresses, c1.IANURIs, c1.IANIPAddresses = nil, nil, nil, nil
+		c1.Subject.CommonName = ""
+		if pv == 2 {
+			c1.URIs = []string{c17URIPool[i], c17URIPool[j]}
+		} else {
+			c1.IANURIs = []string{c17URIPool[i], c17URIPool[j]}
+		}
 	}
 	c1 = zz.Realise(c1)
 	c2 := new(x509.Certificate)
@@ -92,6 +113,17 @@ func VerifC17Order() {
 		c2.IANEmailAddresses = c17RevStr(c1.IANEmailAddresses)
 		c2.IANURIs = c17RevStr(c1.IANURIs)
 		c2.IANIPAddresses = c17RevIP(c1.IANIPAddresses)
+		if zz.Replaying() {
+			// c1 now is a parsed certificate: its raw SAN / IAN extension values must not be re-used verbatim
+			// for c2, whose general names are to be encoded from the reversed lists
+			em := map[string]pkix.Extension{}
+			for k, e := range c1.ExtensionsMap {
+				if k != "2.5.29.17" && k != "2.5.29.18" {
+					em[k] = e
+				}
+			}
+			c2.ExtensionsMap = em
+		}
 	}
 	c2 = zz.Realise(c2)
 	cfg := lint.NewEmptyConfig()
